@@ -76,7 +76,17 @@ def gen_cases(rng, tier):
             c['keynames'] = rng.pick([{'k': 'first name', 'k2': 'dept-id'}, {'k': 'emp no', 'k2': 'e-mail'}, {'k': 'k', 'k2': 'k 2'}])
         if i % 6 == 5:
             c['kind'] = 'join_self'
+        if any(g in ('array', 'set', 'counters') for _, _, g in fields) and rng.chance(0.6):
+            # a later row step that adds to every list in the row, in place: each joined row has containers of its own (round 8)
+            c['mark'] = True
         cases.append(c)
+    # systematically: several target rows in a row with the same key, container-valued aggregates, a later step editing them in place
+    for g in ('array', 'set', 'counters'):
+        for mode in ('inner', 'half-outer', 'full-outer'):
+            cases.append({'kind': 'join', 'S': rows_enc([{'k': 1, 'k2': 'p', 'v': 5, 'w': 'a'}, {'k': 1, 'k2': 'p', 'v': 6, 'w': 'b'}, {'k': 2, 'k2': 'q', 'v': 7, 'w': 'c'}]),
+                          'T': rows_enc([{'k': 1, 'k2': 'p', 'x': 0}, {'k': 1, 'k2': 'p', 'x': 1}, {'k': 1, 'k2': 'p', 'x': 2}, {'k': 2, 'k2': 'q', 'x': 3}]),
+                          'skey': [['f', 'k']], 'tkey': [['f', 'k']], 'listform': True, 'fields': [['agg1', 'w', g]], 'star': None, 'mode': mode,
+                          'source_delete': True, 'mark': True})
     if tier == 'thorough':
         big = [{'k': i % 11000, 'k2': 'p', 'v': i % 7, 'w': 'x'} for i in range(12000)]
         cases.append({'kind': 'join', 'S': rows_enc(big), 'T': rows_enc([{'k': j, 'k2': 'p', 'x': None} for j in (0, 5, 10999, 11000)]),
@@ -134,6 +144,30 @@ def step_of(case):
                    mode=case['mode'], source_delete=case['source_delete'])
 
 
+MARK = '\u2691mark'
+
+
+def _mark(row):
+    for v in row.values():
+        if isinstance(v, list):
+            v.append(MARK)
+        elif isinstance(v, set):
+            v.add(MARK)
+
+
+def unmark(rows):
+    """removes the one marker each list of a row was given by the later step; returns a description of the first list that
+    does not hold exactly one (it is shared with another row) or None"""
+    for i, row in enumerate(rows):
+        for k, v in row.items():
+            if isinstance(v, (list, set)):
+                n = list(v).count(MARK)
+                if n != 1:
+                    return 'row %d: the %s under %r was edited %d times by a step that edits each row once: %r' % (i, type(v).__name__, k, n, v)
+                v.remove(MARK)
+    return None
+
+
 def run_impl(case):
     res = [{'name': 'S', 'fields': [{'name': n, 'type': t} for n, t in S_FIELDS], 'rows': rows_dec(case['S'])},
            {'name': 'T', 'fields': [{'name': n, 'type': t} for n, t in T_FIELDS], 'rows': rows_dec(case['T'])}]
@@ -145,9 +179,14 @@ def run_impl(case):
                 f['name'] = _rn(case, f['name'])
             r_['rows'] = [dict((_rn(case, k), v) for k, v in row.items()) for row in r_['rows']]
     # (also read with all resources taken first and the resources iterator let go before any row is read)
-    out = run_stream(res, [step_of(case)], collect=not case.get('big'))
+    out = run_stream(res, [step_of(case)] + ([_mark] if case.get('mark') else []), collect=not case.get('big'))
     if 'error' in out:
         return {'error': out['error'], 'exc': out['exc']}
+    if case.get('mark'):
+        for rows_ in out['rows']:
+            pb = unmark(rows_)
+            if pb:
+                return {'error': E_OTHER, 'exc': 'joined rows share their containers: ' + pb}
     if case.get('keynames'):
         back = dict((v, k) for k, v in case['keynames'].items())
         out['rows'] = [[dict((back.get(k, k), v) for k, v in row.items()) for row in rows] for rows in out['rows']]
